@@ -173,6 +173,47 @@ def lemma_parcel_in_context(ctx):
                         where="props/C18.py: Saveable.save inside eigenbasis_of, __exit__, load_parcel, read .data (real code)")
 
 
+def lemma_spectrum_axis_units(ctx):
+    """an absorption spectrum exported and imported inside the same (non-internal) units context comes back with the
+    same frequency axis in internal units"""
+    ABS = "quantarhei/spectroscopy/absbase.py::"
+    FQ = "quantarhei/core/frequency.py::"
+    MGR = "quantarhei/core/managers.py::"
+    obs = []
+    for units in ("int", "1/cm", "eV"):
+        def setup(S, units=units):
+            cur = {"energy": units, "frequency": "1/fs", "dipolemoment": "Debye", "temperature": "Kelvin", "time": "fs", "length": "A"}
+            m = S.obj(MGR + "Manager", label="mgr", current_units=cur, _saved_units={}, _in_eu_count=0, _in_energy_units_context=False,
+                      _enforce_contexts=True, basis_stack=[0], basis_transformations=[1], basis_registered={},
+                      _in_eigenbasis_of_context=False, current_basis_operator=None, warn_about_basis_change=False,
+                      warn_about_basis_changing_objects=False)
+            S.singleton("Manager", m)
+            n = S.int("N")
+            S.ex.assume(n >= 2)
+
+            def axis(label, name):
+                return S.obj(FQ + "FrequencyAxis", label=label, _data=S.array(name, (n,), "real"), _start=S.real(name + "_start"),
+                             _step=S.real(name + "_step"), _length=n, atype="complete", time_start=0)
+            ax1, ax2 = axis("ax1", "omega_internal"), axis("ax2", "other_axis")
+            src = S.obj(ABS + "AbsSpectrumBase", label="src", axis=ax1, data=S.array("spectrum", (n,), "real"))
+            dst = S.obj(ABS + "AbsSpectrumBase", label="dst", axis=ax2, data=None)
+            repo = S.ex.repo
+            raised = None
+            try:
+                S.ex.call_function(repo.function(ABS + "AbsSpectrumBase.save_data"), ["spect.dat"], {}, bound=src)
+                S.ex.call_function(repo.function(ABS + "AbsSpectrumBase.load_data"), ["spect.dat"], {}, bound=dst)
+            except RaiseSignal as r:
+                raised = r.exc_type
+                dst.fields["data"] = S.array("nothing_loaded", (n,), "real")
+            return dict(src=src, dst=dst, ax1=ax1, ax2=ax2, N=n, raised=raised, spectrum=src.fields["data"])
+        obs += clause_lemma(ctx, "spectrum-export-import-in-%s" % units.replace("/", "-per-"), setup, ["N >= 2"],
+                            [("no-exception", "raised is None"),
+                             ("same-intensities", "forall(i, range(0, N), dst.data[i] == spectrum[i])"),
+                             ("same-axis-in-internal-units", "forall(i, range(0, N), ax2._data[i] == ax1._data[i])")],
+                            where="props/C18.py: AbsSpectrumBase.save_data then load_data in one units context (real code)")
+    return obs
+
+
 def holder(S, n, m, cplx, dim, label, prefix):
     shape = (n,) if dim == 1 else (n, m)
     data = S.array(prefix + "data", shape, "cx" if cplx else "real")
@@ -234,7 +275,7 @@ def plan(ctx):
     contracts(ctx.registry)
     p.functions = [DS + "DataSaveable.save_data#unknown-extension", DS + "DataSaveable.load_data#unknown-extension"]
     install_parcel_models(ctx.registry)
-    p.lemmas = [lemma_roundtrips, lemma_parcel_in_context]
+    p.lemmas = [lemma_roundtrips, lemma_spectrum_axis_units, lemma_parcel_in_context]
     p.oracles = ["native/oracle_C18.py"]
     p.trusted = ["numpy.save / load, numpy.savez_compressed / load, numpy.savetxt / loadtxt, scipy.io.savemat / loadmat behave as "
                  "their modelled contracts (props/C18.py: install_io_models)",
